@@ -473,6 +473,10 @@ pub fn build_sprite(t: &mut Tape, c: &GenCfg) -> Sprite {
         if c.background && kind == LayerKind::Image && t.chance(1, if i == 0 { 4 } else { 16 }) {
             flags |= LF_BACKGROUND;
         }
+        // the flag is a per-layer bit; nothing stops a writer from setting it on a tilemap layer
+        if c.background && matches!(kind, LayerKind::Tilemap { .. }) && t.chance(1, 6) {
+            flags |= LF_BACKGROUND;
+        }
         flags |= (t.raw() as u16) & 0x76 & if t.chance(1, 2) { 0xFFFF } else { 0x02 };
         // bits the format has not assigned yet (a reader must ignore them; only the 7 defined bits are ever compared)
         if t.chance(1, 5) {
@@ -679,6 +683,7 @@ pub fn build_plan(t: &mut Tape) -> Plan {
         shuffle: t.chance(1, 2),
         color_profile: t.pick(&[0u8, 0, 1, 2]),
         pad_to: (0, 0),
+        legacy_frame: t.pick(&[0u8, 0, 0, 1, 2, 255]),
     }
 }
 
